@@ -42,9 +42,9 @@ FAULTS = {
     "noPortSwap": "ReplyAddressing", "noAddrSwap": "ReplyAddressing", "noReverse": "ReplyAddressing",
     "replyToSrc": "ReplyAddressing", "echoPayload": "ReplyAddressing",
     "fwdOnSrvPort": "ForwardRule", "fwdBackToEh": "ForwardRule", "fwdPayload": "ForwardRule",
-    "keycache": "MacSound",
+    "keycache": "MacSound", "authOnlyDirectE2E": "MacSound",
 }
-QUICK_FAULTS = ["srvIgnoreMac", "replyNoAuth", "replyToSrc", "fwdBackToEh", "keycache"]
+QUICK_FAULTS = ["srvIgnoreMac", "replyNoAuth", "replyToSrc", "fwdBackToEh", "keycache", "authOnlyDirectE2E"]
 FLIPS = ["macFlip", "covHdr", "covPath", "covPld", "tsFlip", "rsvFlip", "uncovFlip", "spiFlip", "algoFlip"]
 CLAUSE = {"TMacSoundReq": "MacSound request", "TMacSoundResp": "MacSound response",
           "TAuthReply": "AuthReplyVerifies reply", "TAuthReplyClient": "AuthReplyVerifies client",
@@ -195,11 +195,11 @@ def run(ctx):
     e2e = ctx.emitted(res[-1]["out"], marker="E2E")
     if len(gen) < 15000 or len(e2e) < 300:
         raise vlib.Inconclusive("case generators produced only %d + %d cases" % (len(gen), len(e2e)))
-    req_cases = [dict(c, t="req", sweep=False, cauth=True, rm="-") for c in gen]
+    req_cases = [dict(c, t="req", sweep=False, cauth=True, rm="-", rext="e2e") for c in gen]
     e2e_base = dict(t="e2e", sweep=False, mode="server", ul="srv", l4="udp", dp="srv", dh="S", sfam=4, dfam=4, pl="ntp")
     e2e_cases = [dict(c, **e2e_base) for c in e2e]
     if q:
-        req_cases = _stratified(rng, req_cases, 4000, lambda c: (c["mode"], c["wact"], c["ak"], c["l4"]))
+        req_cases = _stratified(rng, req_cases, 5000, lambda c: (c["mode"], c["wact"], c["ak"], c["l4"], c["ext"]))
         cases = req_cases + e2e_cases
     else:
         cases = req_cases + e2e_cases * 3
@@ -208,7 +208,7 @@ def run(ctx):
             if (c["mode"], c["ul"], c["l4"], c["dp"], c["dh"], c["pl"]) == ("server", "srv", "udp", "srv", "S", "ntp") \
                     and c["ak"] in FLIPS and (c["sfam"], c["dfam"]) in ((4, 4), (6, 4)) \
                     and (c["sfam"] == 4 or c["path"]["kind"] == "empty" or len(c["path"]["segs"]) == 3):
-                cases.append(dict(c, t="req", sweep=True, cauth=True, rm="-"))
+                cases.append(dict(c, t="req", sweep=True, cauth=True, rm="-", rext="e2e"))
         # ... the real client's request and the real server's response
         for c in e2e:
             n = len(c["path"]["segs"])
@@ -325,7 +325,7 @@ def run(ctx):
              "segments, several positions) x payload class x 13 authenticator classes; every end-to-end case "
              "(client authentication on/off x path x request tampering x response tampering) with the real client, "
              "real server and a tampering relay; %s" %
-             ("stratified sample of 4000 of the ~2*10^4 crafted cases, one drawn bit per tamper class" if q else
+             ("stratified sample of 5000 of the ~2*10^4 crafted cases, one drawn bit per tamper class" if q else
               "all crafted cases plus every bit of the authenticator option, of the covered header / path / payload "
               "bytes and of the uncovered path bytes, on crafted requests, on the real client's request and on the "
               "real server's response", ),
